@@ -41,7 +41,7 @@ def wrap(pv, r):
 
 
 def sk(t):
-    return re.sub(r'#\d+\.\d+', '', show(t))
+    return re.sub(r'#(?:i\d+:)?\d+\.\d+', '', show(t))
 
 
 def check_dispatch_table(facts, rep, cmd, int_ty='i64'):
